@@ -19,6 +19,8 @@ def set_taus(rng, spec, dt, steps):
             if spec['ops'][opk]['lib'] in ('dd', 'ddt', 'cdd'):
                 n = rng.randint(2, max(3, steps // 3))
                 var['tau'] = (n + rng.choice([0.0, 0.0, rng.uniform(-0.4, 0.4)])) * dt
+                if rng.random() < 0.07:
+                    var['tau'] = 0.0        # boundary: a delay parameter that is exactly 0 when the model is compiled
                 var['a'] = rng.randint(4, 40) / 16
                 if spec['ops'][opk]['lib'] != 'cdd':
                     var['c'] = rng.randint(-8, 8) / 16
@@ -69,6 +71,27 @@ class C10(Check):
             return {}
         spec = models.gen_net(rng, n_nodes=rng.randint(1, 4), libs=libs, max_edges=5, delays=delays if edges_mode else None,
                               build='python' if rng.random() < 0.7 else 'yaml')
+        if edges_mode and not spec.get('circuits') and rng.random() < 0.35:
+            # boundary: a delay of at most one step size next to a longer one on the SAME source variable (a lone sub-step
+            # delay is neglected by the implementation; next to a longer one it is honoured and must stay so)
+            by_src = {}
+            for e in spec['edges']:
+                by_src.setdefault(e[0], []).append(e)
+            multi = [es for es in by_src.values() if len(es) >= 2]
+            if not multi and spec['edges']:
+                e0 = rng.choice(spec['edges'])
+                others = [e for e in spec['edges'] if e is not e0]
+                tgt = rng.choice(others)[1] if others else e0[1]
+                if tgt != e0[1] or True:
+                    spec['edges'].append([e0[0], tgt if tgt != e0[1] else e0[1], {'weight': 0.625}])
+                    if spec['edges'][-1][1] == e0[1]:
+                        spec['edges'].pop()       # (a parallel edge: not added)
+                    else:
+                        multi = [[e0, spec['edges'][-1]]]
+            if multi:
+                es = rng.choice(multi)
+                es[0][2]['delay'] = (rng.randint(2, 12) + rng.uniform(-0.4, 0.4)) * dt
+                es[1][2]['delay'] = rng.choice([1.0, 1.0, 0.5, 0.25]) * dt
         set_taus(rng, spec, dt, steps)
         cfg = {'dt': dt, 'steps': steps, 'm': m, 'level': 'func' if stratum in ('S-func', 'S-edges', 'S-edges-vec') else 'run',
                'backend': 'torch' if stratum == 'S-torch' else 'default',
